@@ -269,18 +269,25 @@ impl Tracer {
             _ => {
                 let size = e.tagged_cbor().to_cbor_data().len();
                 let r = e.add_salt();
-                let len = r
-                    .assertions()
-                    .iter()
-                    .filter_map(|a| a.as_object())
-                    .filter_map(|o| o.extract_subject::<bc_components::Salt>().ok())
-                    .map(|s| s.len())
-                    .max()
-                    .unwrap_or(0);
+                let len = new_salt_len(&e, &r);
                 self.emit("add_salt", json!([src + 1]), dst, Ok(r), json!({"size": size, "len": len}));
             }
         }
     }
+}
+
+/// Length of the salt the call added: the salt assertion of `after` that `before` did not have.
+fn new_salt_len(before: &Envelope, after: &Envelope) -> usize {
+    let old: std::collections::HashSet<Vec<u8>> = before.assertions().iter().map(|a| a.digest().data().to_vec()).collect();
+    after
+        .assertions()
+        .iter()
+        .filter(|a| !old.contains(&a.digest().data().to_vec()))
+        .filter_map(|a| a.as_object())
+        .filter_map(|o| o.extract_subject::<bc_components::Salt>().ok())
+        .map(|s| s.len())
+        .max()
+        .unwrap_or(0)
 }
 
 fn main() {
@@ -390,7 +397,7 @@ fn main() {
                 let e = tr.regs[src].clone().unwrap();
                 let size = e.tagged_cbor().to_cbor_data().len();
                 let r = e.add_salt();
-                let len = r.assertions().iter().filter_map(|a| a.as_object()).filter_map(|o| o.extract_subject::<bc_components::Salt>().ok()).map(|s| s.len()).max().unwrap_or(0);
+                let len = new_salt_len(&e, &r);
                 tr.emit("add_salt", json!([src + 1]), 3, Ok(r), json!({"size": size, "len": len}));
             }
             for ev in &tr.out {
